@@ -30,7 +30,7 @@ PROPS = ['C12_newton_tir_diverges', 'C12_unrepaired_terminates_refuted', 'C12_un
          'C12_refract_run_is_C11_model', 'C12_batch_terminates_and_rows_sound', 'C12_executable_model_correct',
          'C12_secant_bounded', 'C12_secant_exit_on_surface', 'C12_secant_miss_flagged', 'C12_zero_direction_flagged',
          'C12_parametric_no_exception_refuted', 'C12_parametric_no_exception_partial', 'C12_sphere_fixed_steps',
-         'C12_sphere_flag_sound', 'C12_sphere_miss_flagged', 'C12_instance']
+         'C12_sphere_flag_sound', 'C12_sphere_miss_flagged', 'C12_sphere_behind_flagged', 'C12_sphere_behind_unrepaired_refuted', 'C12_instance']
 F_REFR = 'odak.learn.raytracing.refract'
 F_PAR = 'odak.raytracing.intersect_parametric'
 F_TSPH = 'odak.learn.raytracing.intersect_w_sphere'
@@ -119,8 +119,8 @@ def classify_refract(d, n, n1, n2):
     cos2 = dn * dn / (dd * nn)
     s = mu2 * (1 - cos2)                       # (mu sin t1)^2
     if cos2 < Fr(1, 10 ** 4):
-        return 'edge' if s <= 1 else ('tir' if s > 1 + Fr(1, 100) else 'edge')
-    if s > 1 + Fr(1, 1000): return 'tir'
+        return 'edge' if s <= 1 else ('tir' if s > 1 + Fr(2, 100000) else 'edge')
+    if s > 1 + Fr(2, 100000): return 'tir'
     if s < 1 - Fr(1, 1000): return 'transmit'
     return 'edge'
 
@@ -231,14 +231,14 @@ def oracle_torch_sphere(inp):
         if r['check'][i]:
             t = r['distance'][i]
             v = surf_f(one, t) if math.isfinite(t) else float('nan')
-            if not (abs(v) <= 5 * thr + 1e-4 * max(1.0, inp['sphere'][3] ** 2)):     # the flag is computed one optimiser step earlier
+            if not (t >= 0 and abs(v) <= 5 * thr + 1e-4 * max(1.0, inp['sphere'][3] ** 2)):     # the residual is tested one optimiser step earlier
                 unsound.append((i, t, v))
             if cls in ('miss', 'degenerate'):
                 A, B, C = quad_coeffs(one) if cls == 'miss' else (0, 0, 0)
                 fmin = abs(C - B * B / A) if (cls == 'miss' and A > 1e-12 and B * B - A * C < 0) else (abs(C) if cls == 'miss' else float('inf'))
                 if fmin > 10 * thr:
                     missflag.append((i, cls, t))
-    res.append(('flag_sound', not unsound, 'flagged rays are on the sphere (|f| <= 5 error_threshold)', unsound[:3]))
+    res.append(('flag_sound', not unsound, 'flagged rays are on the sphere (|f| <= 5 error_threshold) at a distance >= 0', unsound[:3]))
     res.append(('miss_flagged', not missflag, 'rays that miss are not flagged', missflag[:3]))
     return res
 
@@ -296,6 +296,8 @@ def gen_refract(ctx, n):
         ('tir/short-normal', [ray(dir_at(ez, math.radians(70), rng))], [nrm(ez * -0.004)], 2.4, 1.0, None, None),
         ('tir/just-beyond-critical', [ray(dir_at(ez, crit + 2e-3, rng))], [nrm(ez)], 1.5, 1.0, None, None),
         ('tir/just-beyond-critical-tight', [ray(dir_at(ez, crit + 2e-3, rng))], [nrm(ez)], 1.5, 1.0, 1e-5, None),
+        ('tir/beyond-critical-by-3e-5', [ray(dir_at(ez, crit + 3e-5, rng))], [nrm(ez)], 1.5, 1.0, None, None),
+        ('tir/beyond-critical-by-3e-5/long-normal', [ray(dir_at(ez, crit + 3e-5, rng))], [nrm(ez * 40.0)], 1.5, 1.0, 0.05, None),
         ('critical-angle', [ray(dir_at(ez, crit, rng))], [nrm(ez)], 1.5, 1.0, None, None),
         ('just-inside-critical', [ray(dir_at(ez, crit - 2e-3, rng))], [nrm(ez)], 1.5, 1.0, None, None),
         ('grazing/to-denser', [ray([1.0, 0.0, 0.0])], [nrm(ez)], 1.0, 1.5, None, None),
